@@ -55,6 +55,10 @@ func lifeFamily(prop, name string, weight int, gen func(*RNG) *SrvPlan, online f
 }
 
 func init() {
+	register(lifeFamily("C10", "c10", 4, GenC10, nil, c10Final,
+		func(w *SrvWorld, r *RunResult) { r.Nontrivial = c10Nontrivial(w) }))
+	register(lifeFamily("C10", "c10-idle", 1, GenC10Idle, nil, c10Final,
+		func(w *SrvWorld, r *RunResult) { r.Nontrivial = c10Nontrivial(w) }))
 	register(lifeFamily("C17", "c17", 1, GenC17, nil, c17Final,
 		func(w *SrvWorld, r *RunResult) { r.Nontrivial = c17Nontrivial(w) }))
 	register(srvFamily("C01", "c01", 1, GenC01, c01Online,
@@ -70,16 +74,19 @@ func init() {
 
 // Replay is the on-disk form of one run.
 type Replay struct {
-	Property string          `json:"property"`
-	Family   string          `json:"family"`
-	Seed     uint64          `json:"seed"`
-	Run      int             `json:"run"`
-	Sig      string          `json:"signature,omitempty"`
-	Detail   string          `json:"detail,omitempty"`
-	Plan     json.RawMessage `json:"plan"`
-	Tape     []uint32        `json:"tape"`
-	Trace    []string        `json:"trace,omitempty"`
-	TraceHash uint64         `json:"trace_hash,omitempty"`
+	Property  string          `json:"property"`
+	Family    string          `json:"family"`
+	Seed      uint64          `json:"seed"`
+	Run       int             `json:"run"`
+	Sig       string          `json:"signature,omitempty"`
+	Detail    string          `json:"detail,omitempty"`
+	Plan      json.RawMessage `json:"plan"`
+	Tape      []uint32        `json:"tape"`
+	Trace     []string        `json:"trace,omitempty"`
+	TraceHash uint64          `json:"trace_hash,omitempty"`
+	// Regen: no plan/tape stored; the run is regenerated from (seed, run), which is deterministic.
+	// Used for runs that kill the worker process (unrecovered panic on a goroutine of the system).
+	Regen bool `json:"regen,omitempty"`
 }
 
 func pickFamily(prop string, r *RNG) *Family {
@@ -106,8 +113,6 @@ func familyByName(prop, name string) *Family {
 	}
 	return nil
 }
-
-
 
 func watchdog(limit time.Duration, what *atomic.Value) {
 	last := atomic.LoadInt64(&heartbeat)
@@ -136,6 +141,11 @@ func oneRun(t *testing.T, prop string, seed uint64, run int, rp *Replay) (*RunRe
 	var plan any
 	var tape *Tape
 	rs := Mix(seed, uint64(run))
+	if rp != nil && rp.Regen {
+		prop, seed, run = rp.Property, rp.Seed, rp.Run
+		rs = Mix(seed, uint64(run))
+		rp = nil
+	}
 	if rp != nil {
 		fam = familyByName(rp.Property, rp.Family)
 		if fam == nil {
@@ -241,6 +251,9 @@ func TestWorker(t *testing.T) {
 	stride := envInt("VERIF_STRIDE", 1)
 	for run := from; run < to && time.Since(start) < budget; run += stride {
 		what.Store(fmt.Sprintf("%s seed=%d run=%d", prop, seed, run))
+		if cur := os.Getenv("VERIF_CUR"); cur != "" {
+			os.WriteFile(cur, []byte(fmt.Sprintf("{\"property\":%q,\"seed\":%d,\"run\":%d,\"regen\":true}", prop, seed, run)), 0o644)
+		}
 		res, plan, fam := oneRun(t, prop, seed, run, nil)
 		keepTrace := res.Viol != nil || res.Stuck != "" || os.Getenv("VERIF_TRACE") != ""
 		if res.Viol != nil || res.Stuck != "" {
